@@ -36,7 +36,7 @@ let calls_str () =
         (if c.cl_exact then string_of_int (int_of_n c.cl_rev) else "s") (if c.cl_cur then "c" else "o")
         (if c.cl_ok then "ok" else "fail") in
   "[" ^ String.concat " " (List.map one cs) ^ "]"
-let wkind = function "put" -> 0 | "del" -> 1 | "reins" -> 2 | "stat" -> 3 | "statx" -> 4 | "ref" -> 5
+let wkind = function "put" -> 0 | "del" -> 1 | "reins" -> 2 | "stat" -> 3 | "statx" -> 4 | "ref" -> 5 | "pend" -> 6
   | k -> failwith ("bad write kind " ^ k)
 let trev () = int_of_n !e.e_tab.t_rev
 let live () =
@@ -45,7 +45,7 @@ let () = read_lines_iter (fun line ->
   match split_ws line with
   | [] -> ()
   | "#case" :: _ -> print_endline line; reset ()
-  | ["cfg"; m; rs; mn; mx; pi; ini] when not !started ->
+  | "cfg" :: m :: rs :: mn :: mx :: pi :: ini :: ([] | [_]) when not !started ->
     cf := { cf_batch = (m = "b"); cf_rs = n_of_int (int_of_string rs); cf_min = n_of_int (int_of_string mn);
             cf_max = n_of_int (int_of_string mx); cf_prunei = n_of_int (int_of_string pi); cf_init = (ini = "1") };
     start ();
